@@ -602,6 +602,26 @@ func runCapabilities(c *mc.Ctx, r *mc.Result) {
 			r.Violate("capabilities", "redirect", fmt.Sprintf("Redirect(%d) must be refused without effect: err=%v status=%d", code, err, rw.Code), code)
 		}
 	}
+	// Redirect sends the target it is given the way net/http's Redirect does (that is its documented behaviour):
+	// every valid code x 9 targets (absolute path, relative references, absolute URL, with query, empty, non-ASCII)
+	// x requests with and without a query string, on a deep path, GET/HEAD/POST, against http.Redirect itself
+	for code := 300; code <= 308; code++ {
+		for _, target := range []string{"/target", "target", "../up", "./x", "http://example.test/y", "/t?x=1", "", "/é", "?only=query"} {
+			for _, rqs := range []struct{ method, path, query string }{{"GET", "/", ""}, {"GET", "/a/b/", "q=1&path=/other"}, {"POST", "/a/b", "token=s3cr3t"}, {"HEAD", "/a", "z"}} {
+				mk := func() *http.Request { return fx.ReqRaw(rqs.method, "", rqs.path, "", rqs.query) }
+				want := fx.NewRW()
+				http.Redirect(want, mk(), target, code)
+				rw := fx.NewRW()
+				ctx := fox.NewTestContextOnly(rw, mk())
+				err := ctx.Redirect(code, target)
+				r.Evaluations++
+				r.DistinctNontrivial++
+				if err != nil || rw.Code != want.Code || rw.H.Get("Location") != want.H.Get("Location") || string(rw.Body) != string(want.Body) || rw.H.Get("Content-Type") != want.H.Get("Content-Type") {
+					r.Violate("capabilities", "redirect", fmt.Sprintf("Redirect(%d, %q) on %s %s?%s: err=%v status=%d Location=%q body=%q; net/http sends status=%d Location=%q body=%q", code, target, rqs.method, rqs.path, rqs.query, err, rw.Code, rw.H.Get("Location"), rw.Body, want.Code, want.H.Get("Location"), want.Body), code)
+				}
+			}
+		}
+	}
 	r.Sample(map[string]any{"capability_mask": "10101", "calls": []string{"FlushError", "Push", "SetReadDeadline", "SetWriteDeadline", "EnableFullDuplex", "Hijack"}})
 }
 
